@@ -103,11 +103,34 @@ def plan(r, fmt, ntok, nchar, kinds=None):
     return [{"f": "read_error", "at": r.randint(1, 6)}]
 
 
+def unterminated(fmt, toks):
+    """Does this token prefix end INSIDE a construct that needs a closing token (an EDIF form, a Verilog module or
+    primitive)?  Only decided for texts without conditional compilation; None = not decided."""
+    if fmt == "edf":
+        depth = sum(1 for t in toks if t == "(") - sum(1 for t in toks if t == ")")
+        return depth > 0 and len(toks) > 0
+    if fmt == "v":
+        if any(t.startswith("`if") or t.startswith("`el") or t.startswith("`endif") for t in toks):
+            return None
+        opened = sum(1 for t in toks if t in ("module", "primitive", "macromodule"))
+        closed = sum(1 for t in toks if t in ("endmodule", "endprimitive"))
+        return opened > closed
+    return None
+
+
 def apply(fmt, text, plan_items):
     """Return (new text, read-plan for SimFS, facts) for a fault plan."""
     toks, _ = tokenize(fmt, text)
+    if len(plan_items) == 1 and plan_items[0]["f"] == "truncate_tok" and 0 < plan_items[0]["at"] < len(toks):
+        full_ok = unterminated(fmt, toks) is False
+        if full_ok and unterminated(fmt, toks[:plan_items[0]["at"]]):
+            facts_unterminated = True
+        else:
+            facts_unterminated = False
+    else:
+        facts_unterminated = False
     read_plan = {}
-    facts = {"applied": [], "must_raise": False}
+    facts = {"applied": [], "must_raise": False, "unterminated": facts_unterminated}
     changed = False
     for it in plan_items:
         f = it["f"]
